@@ -340,6 +340,8 @@ func (g *Gen) applyContract(fc *FuncContract, names []string, args []TV, cc *ssa
 		id := g.newObject("fresh_" + sym(label))
 		if isSlice(rts[0]) {
 			g.assume(app("=", app("s_arr", res[0]), id))
+		} else if isIface(rts[0]) {
+			// a fresh object behind an interface value: nothing to identify (its payload is opaque)
 		} else {
 			g.assume(app("=", res[0], id))
 		}
